@@ -30,6 +30,7 @@ func init() {
 			{Name: "matrix", Run: c17Run, Workers: 8, QuickS: 60, ThoroughS: 300},
 			{Name: "strings", Run: c17Strings, QuickS: 60, ThoroughS: 900},
 			{Name: "siblings", Run: c17Siblings, Workers: 2, QuickS: 30, ThoroughS: 60},
+			{Name: "containers", Run: c17Apps, Workers: 4, QuickS: 30, ThoroughS: 60},
 		},
 	})
 }
